@@ -515,7 +515,7 @@ type marshallingIntermediary struct {
 			URL     string `yaml:"url"`
 		} `yaml:"from"`
 		Plus struct {
-			Builtins []*ast.Builtin `yaml:"builtins"`
+			Builtins []map[string]any `yaml:"builtins"`
 		} `yaml:"plus"`
 		Minus struct {
 			Builtins []struct {
@@ -659,7 +659,12 @@ func (config *Config) UnmarshalYAML(value *yaml.Node) error {
 
 	// add any builtins referenced in the plus config
 	for _, plusBuiltin := range result.Capabilities.Plus.Builtins {
-		config.Capabilities.Builtins[plusBuiltin.Name] = fromOPABuiltin(*plusBuiltin)
+		builtin, err := builtinFromConfig(plusBuiltin)
+		if err != nil {
+			return fmt.Errorf("capabilities: invalid built-in function in plus.builtins: %w", err)
+		}
+
+		config.Capabilities.Builtins[builtin.Name] = fromOPABuiltin(builtin)
 	}
 
 	// feature defaults
@@ -749,6 +754,40 @@ func extractDefaults(c *Config, result *marshallingIntermediary) error {
 // CapabilitiesForThisVersion returns the capabilities for the current OPA version Regal depends on.
 func CapabilitiesForThisVersion() *Capabilities {
 	return fromOPACapabilities(rio.OPACapabilities)
+}
+
+// builtinFromConfig converts a built-in function from the capabilities "plus" configuration to OPA's representation.
+// The declaration is accepted both in the form used in OPA's capabilities files (decl: {type, args, result}), and
+// with the type and result attributes placed next to decl rather than inside of it.
+func builtinFromConfig(raw map[string]any) (ast.Builtin, error) {
+	name, ok := raw["name"].(string)
+	if !ok {
+		return ast.Builtin{}, errors.New("name is required")
+	}
+
+	rawDecl, ok := raw["decl"].(map[string]any)
+	if !ok {
+		return ast.Builtin{Name: name}, nil
+	}
+
+	decl := map[string]any{"type": "function"}
+
+	for _, key := range []string{"type", "result"} {
+		if value, ok := raw[key]; ok {
+			decl[key] = value
+		}
+	}
+
+	for key, value := range rawDecl {
+		decl[key] = value
+	}
+
+	var builtin ast.Builtin
+	if err := encoding.JSONRoundTrip(map[string]any{"name": name, "decl": decl}, &builtin); err != nil {
+		return ast.Builtin{}, fmt.Errorf("failed to read declaration of %s: %w", name, err)
+	}
+
+	return builtin, nil
 }
 
 func fromOPABuiltin(builtin ast.Builtin) *Builtin {
